@@ -132,7 +132,7 @@ Section PrecAccept.
     - destruct a as [x rw n|x n|]; simpl.
       + destruct (lookup x G) as [b|] eqn:L; [|reflexivity]. simpl. rewrite andb_true_r.
         destruct f as [|fx fp fm fsh]; simpl.
-        * unfold compat_prec. destruct (name_cty NC x b); reflexivity.
+        * unfold compat_prec. destruct (name_cty G NC x b); reflexivity.
         * specialize (H 0 (ARd x rw n) fx fp fm fsh x b eq_refl eq_refl eq_refl L).
           unfold compat_prec, name_cty. destruct (b_shape b), fsh; simpl; rewrite H; apply prec_eqb_refl.
       + destruct (lookup x G) as [b|] eqn:L; [|reflexivity]. simpl. rewrite andb_true_r.
